@@ -21,6 +21,8 @@ pub enum Which {
     C03,
 }
 
+pub mod chain;
+
 pub struct Sweep {
     which: Which,
 }
@@ -160,7 +162,7 @@ impl Property for Sweep {
     }
     fn rule(&self, tier: Tier) -> String {
         format!(
-            "Exhaustive enumeration of the bounded model spaces M1 (one constraint instance of every library constructor over <=3 variables, all combinations of {} domain shapes), a stride of M2 (pairs of constraints) and M3 (conflict-rich triples over 4-5 variables), each crossed with {} (solver configuration, brancher) combinations; a case = (model, configuration, brancher); all cases are distinct by construction; a case is non-trivial when the reference solution set of the model is neither empty nor the whole assignment space. Oracle: brute-force reference model (i128 arithmetic) sharing no code with the solver.",
+            "Exhaustive enumeration of the bounded model spaces M1 (one constraint instance of every library constructor over <=3 variables, all combinations of {} domain shapes), a stride of M2 (pairs of constraints) and M3 (conflict-rich triples over 4-5 variables), each crossed with {} (solver configuration, brancher) combinations; a case = (model, configuration, brancher); all cases are distinct by construction; a case is non-trivial when the reference solution set of the model is neither empty nor the whole assignment space. (C02 additionally runs a family of deep implication chains x_0<=x_1<=...<=x_n with n around the recursion limits of conflict analysis, see sweep/chain.rs.) Oracle: brute-force reference model (i128 arithmetic) sharing no code with the solver.",
             gen::domain_shapes(!tier.quick()).len(),
             combos(tier).len()
         )
@@ -212,6 +214,9 @@ impl Property for Sweep {
                     }
                 });
             }
+        }
+        if self.which == Which::C02 {
+            chain::run(ctl, models.len() as u64 * nc);
         }
     }
 }
